@@ -65,8 +65,8 @@ def _read_csv_from_file(file_obj: TextIO, *, delimiter: str, has_header: bool):
         rows = all_rows
     
     if not rows:
-        # Header only, no data
-        return Table({col: Vector() for col in header})
+        # Header only, no data: one empty column per header cell (repeats allowed)
+        return Table([Vector([], name=col) for col in header])
     
     # Transpose rows into columns
     num_cols = len(header)
